@@ -764,7 +764,9 @@ func c12SearchOnSorted(c *Ctx) {
 // skips an address it has already seen (first occurrence wins); (b) in AppendSimpleHostHandler every append of a host built
 // from the handler's hostConfigs happens before the existing hosts are appended (the Range over the snapshot's host set),
 // and none after it.
-func c12AppendLastWins(c *Ctx) {
+func c12AppendLastWins(c *Ctx) { c12AppendLastWinsRule(c, "C12.R10") }
+
+func c12AppendLastWinsRule(c *Ctx, rule string) {
 	pkg := "pkg/upstream/cluster"
 	// (a) first occurrence wins
 	firstWins := false
@@ -806,10 +808,10 @@ func c12AppendLastWins(c *Ctx) {
 	}
 	h := c.F(pkg, "AppendSimpleHostHandler")
 	if h == nil {
-		c.Unresolved("C12.R10", "AppendSimpleHostHandler")
+		c.Unresolved(rule, "AppendSimpleHostHandler")
 		return
 	}
-	c.Check("C12.R10", "pkg/upstream/cluster.hostSet.setFinalHost:first-occurrence-wins", h.Pos(), firstWins, "an address already seen is skipped", "hostSet.setFinalHost no longer keeps the first occurrence of an address: the order AppendSimpleHostHandler relies on (appended hosts first) does not make the last update win any more")
+	c.Check(rule, "pkg/upstream/cluster.hostSet.setFinalHost:first-occurrence-wins", h.Pos(), firstWins, "an address already seen is skipped", "hostSet.setFinalHost no longer keeps the first occurrence of an address: the order AppendSimpleHostHandler relies on (appended hosts first) does not make the last update win any more")
 	// (b)
 	var newAppends []ssa.Instruction
 	forEachInstr(h, false, func(_ *ssa.Function, in ssa.Instruction) {
@@ -857,7 +859,7 @@ func c12AppendLastWins(c *Ctx) {
 	})
 	ranges := callsIn(h, false, func(cc *ssa.CallCommon) bool { return cc.IsInvoke() && cc.Method.Name() == "Range" })
 	if len(newAppends) == 0 || len(ranges) != 1 {
-		c.Fail("C12.R10", funcKey(h)+":appended-before-existing", h.Pos(), fmt.Sprintf("expected appends of NewSimpleHost(...) and one Range over the existing hosts in AppendSimpleHostHandler, found %d/%d", len(newAppends), len(ranges)))
+		c.Fail(rule, funcKey(h)+":appended-before-existing", h.Pos(), fmt.Sprintf("expected appends of NewSimpleHost(...) and one Range over the existing hosts in AppendSimpleHostHandler, found %d/%d", len(newAppends), len(ranges)))
 		return
 	}
 	rg := ranges[0].Instr
@@ -871,5 +873,5 @@ func c12AppendLastWins(c *Ctx) {
 			ok = false
 		}
 	}
-	c.Check("C12.R10", funcKey(h)+":appended-before-existing", rg.Pos(), ok, "the appended hosts come first in the merged list", "AppendSimpleHostHandler puts the existing hosts in front of the appended ones: NewHostSet keeps the first occurrence of an address, so an append for an address that is already known (new weight, metadata, TLS flag) is silently dropped - the live host set and the stored configuration keep the superseded attributes although the last update should win")
+	c.Check(rule, funcKey(h)+":appended-before-existing", rg.Pos(), ok, "the appended hosts come first in the merged list", "AppendSimpleHostHandler puts the existing hosts in front of the appended ones: NewHostSet keeps the first occurrence of an address, so an append for an address that is already known (new weight, metadata, TLS flag) is silently dropped - the live host set and the stored configuration keep the superseded attributes although the last update should win")
 }
